@@ -84,6 +84,25 @@ def opStreamrw (f : Fields) (impl : Fields) (implHead : String) (profile : Profi
     if out.startsWith "panic" then out
     else s!"ok stream={impl.get "stream"} offs={impl.get "offs"} lens={impl.get "lens"} {out}"
 
+/-- every frame FlacStreamWriter emitted (located by `offs`/`lens`) lies in the domain of `C16.written_frame_standalone`
+    (`FrameWf none`, by the executable test) and is the serialization of its own parse -/
+def streamWriterVerdict (impl : Fields) (implHead : String) : String :=
+  if implHead != "ok" then "-" else
+  match hexToBytes (impl.get "stream") with
+  | none => "-"
+  | some bytes =>
+    let offs := parseNats (impl.get "offs")
+    let lens := parseNats (impl.get "lens")
+    if offs.isEmpty then "-" else
+    let bad := (List.zip offs lens).find? fun (o, l) =>
+      let piece := (bytes.drop o).take l
+      match parseFrame decLayout true none piece with
+      | .error _ => true
+      | .ok pr => !(frameWfB none pr.frame) || pr.frame.serialize != piece || !pr.crc16ok
+    match bad with
+    | some (o, _) => s!"FAIL stream-writer-frame-outside-roundtrip-domain offset={o}"
+    | none => "ok"
+
 def deinterleave (ch : Nat) (xs : List Int) : List (List Int) :=
   (List.range ch).map fun c => (List.range (xs.length / ch)).map fun i => xs.getD (i * ch + c) 0
 
@@ -533,7 +552,7 @@ def runCase (line : String) : String :=
   let profile := profileOf (f.get "profile")
   match op with
   | "streamread" => opStreamread f profile ++ " @@ -"
-  | "streamrw" => opStreamrw f impl implHead profile ++ " @@ -"
+  | "streamrw" => opStreamrw f impl implHead profile ++ " @@ " ++ streamWriterVerdict impl implHead
   | "encframe" => opEncframe f impl implHead profile
   | "hist" => opHist f ++ " @@ -"
   | "structcmp" => opStructcmp f profile ++ " @@ -"
